@@ -33,9 +33,13 @@ TRUSTED = ['numba\'s threading layer, the GIL and Dask\'s scheduler are NOT in t
            'the model is an interleaving of the atomic steps of Model/Sched.v; the real runtime is '
            'exercised (schedulers x workers x numba threads x delays x client threads), not proved',
            'the write footprint of a prange iteration is observed on the Python execution of the kernel '
-           '(NUMBA_DISABLE_JIT=1), assumed to be what the compiled kernel does']
+           '(NUMBA_DISABLE_JIT=1), assumed to be what the compiled kernel does',
+           'C18_reduction_chunking_refuted is evaluated on Coq\'s primitive binary64 floats (PrimFloat.add / eqb, kernel '
+           'primitives); what a freed block holds when numpy / malloc hand it out again is observed, not modelled: the '
+           'model quantifies over every content of the buffer']
 
 IMPORTS = 'Model.FS Model.Sched'
+BASE_SEED = [0]          # the seed of the run: the inputs every worker process must share
 NUMBA_THREADS = [1, 2, 4, 16]
 
 
@@ -44,6 +48,7 @@ def _spawn(what, seed, tier, env_extra):
     env.update(env_extra)
     env['PYTHONPATH'] = C.REPO + os.pathsep + env.get('PYTHONPATH', '')
     env['PYTHONHASHSEED'] = '0'
+    env.setdefault('C18_BASE_SEED', str(BASE_SEED[0]))
     # OpenMP threads sleep instead of spinning while they wait: with 16 numba threads per process and
     # several processes the spinning alone would take minutes
     env.setdefault('OMP_WAIT_POLICY', 'passive')
@@ -258,13 +263,39 @@ def check_sched(rep, results):
         if nt > 1:
             rep.nontrivial(('large', nt, res.get('large_n')))
         for nm in res.get('large_unstable', []):
-            fam = ':'.join(nm.split(':')[1:3])
-            rep.violation(f'thread-dependent:{fam}', f'{nm} on {res.get("large_n")} elements differs between '
-                          f'repeated runs (NUMBA_NUM_THREADS={nt})', {'numba_threads': nt, 'op': nm, 'kind': 'sched'})
+            fam = ':'.join(nm.split(' [')[0].split(':')[1:3])
+            where = ('large single elements (rings / lines of 8191 .. 70001 vertices, 9000 parts) at non-dyadic '
+                     'coordinates' if nm.startswith('big:') else f'{res.get("large_n")} elements')
+            rep.violation(f'thread-dependent:{fam}', f'{nm} on {where} differs between repeated runs / numba thread '
+                          f'counts inside one process (NUMBA_NUM_THREADS={nt})',
+                          {'numba_threads': nt, 'op': nm, 'kind': 'sched'})
         for nm in sorted(k for k in large_base[0] if res.get('large', {}).get(k) != large_base[0][k]):
             fam = ':'.join(nm.split(':')[1:3])
-            rep.violation(f'thread-dependent:{fam}', f'{nm} on {res.get("large_n")} elements differs from the '
+            if nm.startswith('big:') and any(u.startswith(nm + ' ') for u in res.get('large_unstable', [])):
+                continue        # already reported from inside the process
+            if nm.startswith('hist:'):
+                if any(nm == f"hist:{hb['op']}:{hb['geometry']}" for _nt, r_ in results
+                       for hb in r_.get('history_bad', [])):
+                    continue    # already reported as history-dependent
+                rep.violation(f'thread-dependent:{fam}', f'{nm}: the first evaluations of the queries of the history '
+                              f'suite (arrays of 1 .. 777 elements, ordinary and degenerate boxes) differ from those of '
+                              f'the 1-thread process (NUMBA_NUM_THREADS={nt})',
+                              {'numba_threads': nt, 'op': nm, 'kind': 'sched'})
+                continue
+            where = ('large single elements at non-dyadic coordinates' if nm.startswith('big:')
+                     else f'{res.get("large_n")} elements')
+            rep.violation(f'thread-dependent:{fam}', f'{nm} on {where} differs from the '
                           f'1-thread result (NUMBA_NUM_THREADS={nt})', {'numba_threads': nt, 'op': nm, 'kind': 'sched'})
+        rep.evaluations += res.get('history_evals', 0)
+        rep.count('same-query-under-different-histories', res.get('history_evals', 0))
+        for hb in res.get('history_bad', []):
+            rep.nontrivial(('history', hb['op'], hb['geometry']))
+            rep.violation(f"history-dependent:{hb['op'].split(':')[0]}:{hb['geometry']}",
+                          f"{hb['op']} of a {hb['geometry']} array of {hb['n']} elements, box {hb['box_name']} "
+                          f"{hb['box']}: the answer depends on what ran before in the process "
+                          f"({', '.join(hb['histories_that_differ_from_first'])} differ from the first evaluation: "
+                          f"{hb['first']} vs {hb['other']})",
+                          {'numba_threads': nt, 'kind': 'sched', **hb})
         for nm in res.get('large_scalar_bad', []):
             rep.violation('array-vs-scalar:' + nm.split('[')[0], f'{nm}: the array kernel disagrees with the scalar '
                           f'form / the case is degenerate', {'numba_threads': nt, 'op': nm, 'kind': 'sched'})
@@ -368,8 +399,24 @@ def run(rep):
                 '{synchronous, threads} x num_workers in {1,2,4,16} x NUMBA_NUM_THREADS in {1,2,4,16} x seeded '
                 'delays in a wrapping filesystem x switch interval 1e-5; (3) 8 client threads x 5 rounds on 13 '
                 'kinds of shared object; non-trivial = threaded run with > 1 worker, kernel record with >= 2 '
-                'storing iterations, cache race with >= 2 builders, recorded threaded filesystem trace')
+                'storing iterations, cache race with >= 2 builders, recorded threaded filesystem trace; '
+                '(4) round 4, in every NUMBA_NUM_THREADS process: (a) single elements that are large - lines / rings of 5, '
+                '4097, 8190 .. 8193, 20 011, 70 001 vertices, multi-geometries of 9 000 parts, a polygon with 4 200 holes '
+                '- at non-dyadic coordinates (full mantissas, offsets 1e3 / 1e6): length / area / bounds / total_bounds / '
+                'intersects_bounds through the array, the scalar element, GeoSeries and Dask (synchronous, threads) bit for '
+                'bit equal under numba.set_num_threads(k), k in {1,2,3,4,7,16} available, and across the processes; the '
+                '60 000-element arrays also carry non-dyadic coordinates; (b) the same (array, operation, box) - 7 kinds, '
+                '1 / 3 / 48 / 200 / 777 elements with missing and empty ones, 11 boxes (ordinary, zero width, zero height, '
+                'point, vertex-aligned zero width / height, reversed, NaN, infinite, everything, nothing), intersects_bounds '
+                'with / without / with empty inds, scalar elements, GeoSeries, cx in slice and scalar form with and without '
+                'a built index, sindex, bounds, total_bounds, isna, length, area, PointArray.intersects against 9 ordinary '
+                'and degenerate shapes, Dask intersects_bounds + cx on both schedulers - evaluated first, right after a '
+                'query that matched everything / nothing, and after blocks of every size a result can have were filled '
+                'with 0x01 / 0xff / 1.2345 / 0x00 and freed: all evaluations equal, first evaluations equal across the '
+                'processes; degenerate boxes also through the Dask suite of (2) (with a multiline column) and from 8 '
+                'client threads putting the queries to one shared array each in its own order')
     seed = rep.seed
+    BASE_SEED[0] = seed
     jobs = {}
     with cf.ThreadPoolExecutor(max_workers=8) as ex:
         jobs['footprint'] = ex.submit(_spawn, 'footprint', seed, tier, {'NUMBA_DISABLE_JIT': '1'})
@@ -386,6 +433,7 @@ def replay(rep, rp):
     """prange / cache / fs-trace records are re-evaluated in the model; schedule-dependent results are
     re-run"""
     kind = rp.get('kind')
+    BASE_SEED[0] = rep.seed
     if kind == 'sched':
         res = _spawn('sched', rep.seed, rep.tier, {'NUMBA_NUM_THREADS': str(rp['numba_threads'])})
         r2 = C.Report(rep.pid, rep.tier, rep.seed)
